@@ -6,8 +6,9 @@
    computation (piter_ext). *)
 From Coq Require Import List Arith Bool Lia NArith.
 From Conductor Require Import Model.Loader Model.Planner Model.Exec Model.RunCase
-  Proofs.ListFacts Proofs.LoaderProofs Proofs.PlannerInv Proofs.PlannerThm Proofs.PlannerExact Proofs.PlannerOrder
+  Proofs.ListFacts Proofs.LoaderProofs Proofs.PlannerInv Proofs.PlannerThm Proofs.PlannerExact Proofs.PlannerOrder Proofs.PlannerTerm
   Proofs.ExecInv Proofs.ExecTheorems Proofs.ExecMain.
+From Conductor Require Proofs.ExecSteps.
 Import ListNotations.
 
 (* the step function consults [info] only at the task on top of the stack *)
@@ -150,10 +151,13 @@ Section Compose.
     (forall o od, o < length (ops ps) -> In od (op_exe_deps (op_at (ops ps) o)) ->
        od < o /\ In (op_task (op_at (ops ps) od)) (t_deps (info (op_task (op_at (ops ps) o))))) /\
     map fst (snaps ps) = map op_task (ops ps) /\
-    (forall x l, In (x, l) (snaps ps) -> l = map (fun d => (d, runs sr again d && is_exp info d)) (t_deps (info x))).
+    (forall x l, In (x, l) (snaps ps) -> l = map (fun d => (d, runs sr again d && is_exp info d)) (t_deps (info x))) /\
+    (forall o, o < length (ops ps) ->
+       op_par (op_at (ops ps) o) = par_of info (op_task (op_at (ops ps) o)) /\
+       op_sync (op_at (ops ps) o) = is_sync (t_kind (info (op_task (op_at (ops ps) o))))).
   Proof.
-    destruct (plan_edges info_r sr again root nodup_r (fun t _ => acyclic_r t) pfuel ps Hplan_r) as (H1 & H2 & H3 & H4).
-    split; [|split; [|split; [exact H3|]]].
+    destruct (plan_edges info_r sr again root nodup_r (fun t _ => acyclic_r t) pfuel ps Hplan_r) as (H1 & H2 & H3 & H4 & H5).
+    split; [|split; [|split; [exact H3|split]]].
     - intros o Ho d Hd. apply H1; [assumption|]. now rewrite info_r_in by (now apply op_task_loaded).
     - intros o od Ho Hod. destruct (H2 o od Ho Hod) as [A B]. split; [assumption|].
       now rewrite info_r_in in B by (now apply op_task_loaded).
@@ -163,6 +167,8 @@ Section Compose.
         apply In_nth with (d := dummy_op) in Hoi as (o & Ho & Eoi). subst x. rewrite <- Eoi. now apply op_task_loaded. }
       rewrite info_r_in in E by assumption. rewrite E. apply map_ext_in. intros d Hd. f_equal. f_equal.
       unfold is_exp. destruct (loaded_clean x Hxl) as (_ & _ & Hc & _). now rewrite info_r_in by (now apply Hc).
+    - intros o Ho. destruct (H5 o Ho) as [A B]. unfold par_of in *.
+      now rewrite info_r_in in A, B by (now apply op_task_loaded).
   Qed.
 End Compose.
 
@@ -251,7 +257,56 @@ Proof.
   destruct (plan_for _ _ _ _ _) as [ps'|] eqn:Hplan; [|discriminate].
   intros H. inversion H; subst loaded' ps'. clear H. cbv zeta.
   pose proof (composed_wf tasks (c_root c) fuel loaded Hload (sr_of tasks) (c_again c) fuel ps Hplan) as Hwf.
-  destruct (composed_edges tasks (c_root c) fuel loaded Hload (sr_of tasks) (c_again c) fuel ps Hplan) as (E1 & E2 & E3 & E4).
+  destruct (composed_edges tasks (c_root c) fuel loaded Hload (sr_of tasks) (c_again c) fuel ps Hplan) as (E1 & E2 & E3 & E4 & _).
   destruct (composed_exact tasks (c_root c) fuel loaded Hload (sr_of tasks) (c_again c) fuel ps Hplan) as (X1 & X2 & X3 & _ & _ & _ & _ & X8).
   auto 12.
+Qed.
+
+(* ---------- termination of the whole pipeline on a finite project ---------- *)
+Lemma list_sum_le (f g : nat -> nat) l : (forall x, f x <= g x) -> list_sum (map f l) <= list_sum (map g l).
+Proof. intros H. induction l as [|a l IH]; simpl; [lia|]. specialize (H a). lia. Qed.
+
+Definition run_fuel (tasks : list tdef) (V : list nat) : nat :=
+  fuel_bound (graph_of tasks) V + (2 + list_sum (map (fun t => 1 + length (td_deps (tdef_of tasks t))) V)) + (2 * length V + 2).
+
+(* With at least [run_fuel] fuel the three loops of the model all end by themselves: the only
+   outcomes are a load error that names a defect, or a complete run with its report. *)
+Theorem cond_run_terminates tasks c V fuel :
+  finite_project (graph_of tasks) (c_root c) V -> 1 <= c_jobs c -> run_fuel tasks V <= fuel ->
+  (exists r, cond_run fuel tasks c = OLoadError r /\ r <> OutOfFuel /\ forall v, r <> Ok v) \/
+  (exists loaded ps evs, cond_run fuel tasks c = ORun loaded ps (Some evs)).
+Proof.
+  intros (Vn & Vr & Vc) Hjobs Hfuel. unfold run_fuel in Hfuel. unfold cond_run.
+  pose proof (load_closure_terminates_ge (graph_of tasks) (c_root c) V Vn Vr Vc fuel) as Hlt.
+  destruct (load_closure (graph_of tasks) fuel (c_root c)) as [loaded| | | | |] eqn:Hload;
+    try (left; eexists; split; [reflexivity|]; split; [discriminate | intros v; discriminate]).
+  2:{ exfalso. apply Hlt; [lia | reflexivity]. }
+  right. clear Hlt.
+  set (sr := sr_of tasks). set (again := c_again c). set (root := c_root c) in *.
+  pose proof (nodup_r tasks root fuel loaded Hload) as Hnd.
+  assert (Vc' : forall x d, In x V -> In d (t_deps (info_r tasks loaded x)) -> In d V).
+  { intros x d Hx Hd. apply info_r_deps in Hd as [Hxl Hd].
+    destruct (loaded_clean tasks root fuel loaded Hload x Hxl) as (Hg & _). eapply Vc; eauto. }
+  destruct (piter_total (info_r tasks loaded) sr again root Hnd V Vn Vr Vc' fuel (pinit root)
+              (init_inv _ root) (qinit _ sr again root)) as (ps & Hps).
+  { unfold mu, pinit. cbn [visited stack length].
+    assert (E : pot (info_r tasks loaded) V [] <= list_sum (map (fun t => 1 + length (td_deps (tdef_of tasks t))) V)).
+    { unfold pot. apply list_sum_le. intros x. cbn. unfold cost, info_r. destruct (mem x loaded); cbn; lia. }
+    lia. }
+  assert (Hplan : plan_for (info_of tasks) sr again fuel root = Some ps).
+  { rewrite (plan_for_ext tasks root fuel loaded Hload sr again fuel). exact Hps. }
+  rewrite Hplan.
+  pose proof (composed_wf tasks root fuel loaded Hload sr again fuel ps Hplan) as Hwf.
+  destruct (composed_exact tasks root fuel loaded Hload sr again fuel ps Hplan) as (Hn & Hnd_ops & _).
+  assert (Hlen : length (ops ps) <= length V).
+  { rewrite <- (map_length op_task). apply NoDup_incl_length; [exact Hnd_ops|].
+    intros t Ht. apply in_map_iff in Ht as (oi & <- & Hoi). apply In_nth with (d := dummy_op) in Hoi as (o & Ho & Eo).
+    assert (HN : Needed (info_of tasks) sr again root (op_task oi)) by (apply Hn; exists o; unfold op_at; rewrite Eo; auto).
+    destruct HN as [HN _]. apply (nreach_iff tasks root fuel loaded Hload sr again) in HN.
+    eapply nreach_V; eauto. }
+  set (pl := plan_of ps). set (orc := oracle_of pl c).
+  destruct (xiter_total pl (c_jobs c) (c_stop c) orc Hwf Hjobs fuel (xinit pl (c_jobs c))) as (s' & Hs').
+  { now apply ExecSteps.init_inv. }
+  { unfold pl. cbn [plan_of p_ops]. lia. }
+  exists loaded, ps. eexists. unfold run_plan. fold pl orc. rewrite Hs'. reflexivity.
 Qed.
